@@ -1,0 +1,230 @@
+//go:build verif
+
+package quickfix
+
+// Exports for the verification harness (build tag verif only): a session built by the real
+// sessionFactory and driven synchronously, exactly as the repository's own unit tests drive it,
+// but from another module. Nothing here is compiled into the default build.
+
+import (
+	"bytes"
+	"sort"
+	"sync"
+	"time"
+
+	"github.com/quickfixgo/quickfix/internal"
+)
+
+// VerifSession is a real session that is never handed to run(): the harness is the event loop.
+type VerifSession struct {
+	s *session
+
+	mu     sync.Mutex
+	in     chan fixIn
+	out    chan []byte
+	quit   chan struct{}
+	arms   []VerifArm
+	connNo int
+}
+
+// VerifArm is one EventTimer.Reset observed through the timer hook.
+type VerifArm struct {
+	Timer string // "state" (heartbeat) or "peer"
+	D     time.Duration
+}
+
+// Timeout events (internal.Event cannot be imported from another module).
+const (
+	VerifPeerTimeout   = int(internal.PeerTimeout)
+	VerifNeedHeartbeat = int(internal.NeedHeartbeat)
+	VerifLogonTimeout  = int(internal.LogonTimeout)
+	VerifLogoutTimeout = int(internal.LogoutTimeout)
+)
+
+var verifSessions sync.Map // *internal.EventTimer -> *VerifSession + name
+
+type verifTimerOwner struct {
+	v    *VerifSession
+	name string
+}
+
+func init() {
+	internal.VerifSetTimerHook(func(t *internal.EventTimer, d time.Duration) {
+		if o, ok := verifSessions.Load(t); ok {
+			ow := o.(verifTimerOwner)
+			ow.v.mu.Lock()
+			ow.v.arms = append(ow.v.arms, VerifArm{Timer: ow.name, D: d})
+			ow.v.mu.Unlock()
+		}
+	})
+}
+
+// VerifNewSession builds a session through sessionFactory.newSession (all settings glue included),
+// installs real EventTimers with no-op tasks, starts the state machine and discards the events that
+// time.AfterFunc callbacks (logon/logout timeouts) would deliver: the harness injects timeouts itself.
+func VerifNewSession(initiator bool, id SessionID, sf MessageStoreFactory, settings *SessionSettings, lf LogFactory, app Application) (*VerifSession, error) {
+	f := sessionFactory{BuildInitiators: initiator}
+	s, err := f.newSession(id, sf, settings, lf, app)
+	if err != nil {
+		return nil, err
+	}
+	v := &VerifSession{s: s, quit: make(chan struct{})}
+	s.stateTimer = internal.NewEventTimer(func() {})
+	s.peerTimer = internal.NewEventTimer(func() {})
+	verifSessions.Store(s.stateTimer, verifTimerOwner{v, "state"})
+	verifSessions.Store(s.peerTimer, verifTimerOwner{v, "peer"})
+	go func() {
+		for {
+			select {
+			case <-s.sessionEvent:
+			case <-v.quit:
+				return
+			}
+		}
+	}()
+	s.Start(s)
+	return v, nil
+}
+
+// Close releases timers and the background drain.
+func (v *VerifSession) Close() {
+	close(v.quit)
+	verifSessions.Delete(v.s.stateTimer)
+	verifSessions.Delete(v.s.peerTimer)
+	v.s.stateTimer.Stop()
+	v.s.peerTimer.Stop()
+	v.s.store.Close()
+}
+
+// Connect performs what session.connect does through the admin channel, synchronously.
+// inCap is the capacity of the inbound channel (acceptor/initiator use InChanCapacity).
+func (v *VerifSession) Connect(inCap int) error {
+	in := make(chan fixIn, inCap)
+	out := make(chan []byte, 1<<16)
+	rep := make(chan error, 1)
+	wasConnected := v.s.IsConnected()
+	v.s.onAdmin(connect{messageOut: out, messageIn: in, err: rep})
+	err := <-rep
+	if err == nil && !wasConnected {
+		v.in, v.out = in, out
+		v.connNo++
+	}
+	return err
+}
+
+func (v *VerifSession) ConnNo() int { return v.connNo }
+
+// Incoming hands one framed message to the state machine as the run loop would.
+func (v *VerifSession) Incoming(b []byte) {
+	v.s.Incoming(v.s, fixIn{bytes: bytes.NewBuffer(b), receiveTime: time.Now()})
+}
+
+// Arrive buffers a message in the inbound channel without processing it; false if the channel is full or gone.
+func (v *VerifSession) Arrive(b []byte) bool {
+	if v.in == nil {
+		return false
+	}
+	select {
+	case v.in <- fixIn{bytes: bytes.NewBuffer(b), receiveTime: time.Now()}:
+		return true
+	default:
+		return false
+	}
+}
+
+// Pop processes the next buffered inbound message the way session.run does; false if there is none.
+func (v *VerifSession) Pop() bool {
+	if v.s.messageIn == nil {
+		return false
+	}
+	select {
+	case m, ok := <-v.s.messageIn:
+		if !ok {
+			v.s.Disconnected(v.s)
+		} else {
+			v.s.Incoming(v.s, m)
+		}
+		return true
+	default:
+		return false
+	}
+}
+
+func (v *VerifSession) Timeout(e int)               { v.s.Timeout(v.s, internal.Event(e)) }
+func (v *VerifSession) Disconnected()                { v.s.Disconnected(v.s) }
+func (v *VerifSession) Stop()                        { v.s.onAdmin(stopReq{}) }
+func (v *VerifSession) SendAppMessages()             { v.s.SendAppMessages(v.s) }
+func (v *VerifSession) CheckSessionTime(t time.Time) { v.s.CheckSessionTime(v.s, t) }
+func (v *VerifSession) CheckResetTime(t time.Time)   { v.s.CheckResetTime(v.s, t) }
+
+// Send is what SendToTarget does once the session is found.
+func (v *VerifSession) Send(m Messagable) error { return v.s.queueForSend(m.ToMessage()) }
+
+// DrainOut returns what the session wrote to the connection since the last call, and whether it closed it.
+func (v *VerifSession) DrainOut() (msgs [][]byte, closed bool) {
+	if v.out == nil {
+		return nil, false
+	}
+	for {
+		select {
+		case m, ok := <-v.out:
+			if !ok {
+				v.out = nil
+				return msgs, true
+			}
+			msgs = append(msgs, m)
+		default:
+			return msgs, false
+		}
+	}
+}
+
+// DrainArms returns the timer arms observed since the last call.
+func (v *VerifSession) DrainArms() []VerifArm {
+	v.mu.Lock()
+	defer v.mu.Unlock()
+	a := v.arms
+	v.arms = nil
+	return a
+}
+
+func (v *VerifSession) StateName() string {
+	if _, ok := v.s.State.(pendingTimeout); ok {
+		return "Pending:" + v.s.State.String()
+	}
+	return v.s.State.String()
+}
+func (v *VerifSession) IsConnected() bool   { return v.s.IsConnected() }
+func (v *VerifSession) IsLoggedOn() bool    { return v.s.IsLoggedOn() }
+func (v *VerifSession) Stopped() bool       { return v.s.Stopped() }
+func (v *VerifSession) Store() MessageStore { return v.s.store }
+func (v *VerifSession) ToSendLen() int      { return len(v.s.toSend) }
+func (v *VerifSession) InboxLen() int {
+	if v.s.messageIn == nil {
+		return 0
+	}
+	return len(v.s.messageIn)
+}
+func (v *VerifSession) HeartBtInt() time.Duration { return v.s.HeartBtInt }
+
+// ResendInfo exposes the recovery bookkeeping when the session is (pending-wrapped) in resend state.
+func (v *VerifSession) ResendInfo() (inResend bool, stash []int, cur, fin int) {
+	st := v.s.State
+	if p, ok := st.(pendingTimeout); ok {
+		st = p.sessionState
+	}
+	rs, ok := st.(resendState)
+	if !ok {
+		return false, nil, 0, 0
+	}
+	for k := range rs.messageStash {
+		stash = append(stash, k)
+	}
+	sort.Ints(stash)
+	return true, stash, rs.currentResendRangeEnd, rs.resendRangeEnd
+}
+
+// InRange / InSameRange evaluate the schedule the factory built from the settings.
+func (v *VerifSession) InRange(t time.Time) bool        { return v.s.SessionTime.IsInRange(t) }
+func (v *VerifSession) InSameRange(a, b time.Time) bool { return v.s.SessionTime.IsInSameRange(a, b) }
+func (v *VerifSession) HasSchedule() bool               { return v.s.SessionTime != nil }
